@@ -526,10 +526,6 @@ theorem shortest_digits_ok (bits : Nat) (tie : Bool) :
 
 /-! ### shapes of the three repr layouts -/
 
-/-- digits past the decimal point exist (what `is_integer = false` means for the shortest digits) -/
-def FracDigits (bits : Nat) : Prop :=
-  (shortest bits).2 + 1 ≤ 0 ∨ ((shortest bits).2 + 1).toNat < (shortest bits).1.length
-
 theorem shortestExpL_snd (bits : Nat) : (shortestExpL bits).2 = (shortest bits).2 := by
   unfold shortestExpL; rfl
 
@@ -649,7 +645,7 @@ theorem not_finite_nan_or_inf {bits : Nat} (hf : isFinite bits = false) :
   simp at hf
   simp [hf]
 
-theorem special_eq (bits : Nat) (upper : Bool) (hf : isFinite bits = false) (hs : isNeg bits = false) :
+theorem special_eq (bits : Nat) (upper : Bool) (_hf : isFinite bits = false) (hs : isNeg bits = false) :
     (if isNan bits then formatNan upper else formatInf upper) = special bits upper := by
   unfold special formatNan formatInf
   by_cases hn : isNan bits = true
@@ -672,7 +668,7 @@ theorem dropWhile_zero_chars (fr : List Nat) (tail : List Nat) :
     by_cases hd : d = 0
     · subst hd; simpa [showDigits] using ih
     · have : ¬ (48 + d = 48) := by omega
-      simp [showDigits, List.dropWhile_cons, this, hd]
+      simp [showDigits, hd]
 
 theorem strip_with_point (A fp : List Nat) :
     removeTrailingDecimalPoint (removeTrailingZeros (A ++ 46 :: showDigits fp)) =
@@ -720,5 +716,358 @@ theorem maybeRemove_nopoint (ip : List Nat) (alt : Bool) :
   unfold maybeRemoveTrailingRedundantChars
   rw [showDigits_no_point]
   simp
+
+
+/-! ### parsing rendered text back -/
+
+/-- characters that occur in rendered finite floats -/
+def Plain (t : List Nat) : Prop :=
+  ∀ c ∈ t, c = 45 ∨ c = 43 ∨ c = 46 ∨ c = 101 ∨ (48 ≤ c ∧ c ≤ 57)
+
+theorem dropWhile_none {p : Nat → Bool} {l : List Nat} (h : ∀ c ∈ l, p c = false) :
+    l.dropWhile p = l := by
+  cases l with
+  | nil => rfl
+  | cons a b => simp [h a (by simp)]
+
+theorem trimWith_none {p : Nat → Bool} {l : List Nat} (h : ∀ c ∈ l, p c = false) :
+    trimWith p l = l := by
+  unfold trimWith
+  rw [dropWhile_none h, dropWhile_none (by intro c hc; exact h c (by simpa using hc))]
+  simp
+
+theorem utf8Encode_ascii (l : List Nat) (h : ∀ c ∈ l, c < 128) : PV.utf8Encode l = l := by
+  induction l with
+  | nil => rfl
+  | cons a b ih =>
+    have ha : a < 128 := h a (by simp)
+    have := ih (fun c hc => h c (by simp [hc]))
+    simp only [PV.utf8Encode, List.flatMap_cons] at this ⊢
+    rw [this]
+    simp [PV.utf8EncodeNat, ha]
+
+theorem stripGo_plain (l : List Nat) : ∀ prev, prev ≠ 95 → (∀ c ∈ l, c ≠ 95) → stripGo prev l = some l := by
+  induction l with
+  | nil => intro prev hp _; simp [stripGo, hp]
+  | cons a b ih =>
+    intro prev hp h
+    have ha : a ≠ 95 := h a (by simp)
+    unfold stripGo
+    simp only [ha, if_false, hp, false_and]
+    rw [ih a ha (fun c hc => h c (by simp [hc]))]
+    rfl
+
+theorem Plain.props {t : List Nat} (h : Plain t) :
+    (∀ c ∈ t, isWhitespace c = false) ∧ (∀ c ∈ t, c < 128) ∧ (∀ c ∈ t, c ≠ 95) := by
+  refine ⟨?_, ?_, ?_⟩ <;> intro c hc <;> rcases h c hc with h | h | h | h | h
+  all_goals first | (subst h; decide) | omega | skip
+  · simp [isWhitespace]; omega
+
+theorem parseStr_plain (t : List Nat) (h : Plain t) : parseStr t = lexicalParse t := by
+  obtain ⟨h1, h2, h3⟩ := h.props
+  unfold parseStr parseInner stripUnderlines
+  rw [trimWith_none h1, utf8Encode_ascii t h2, stripGo_plain t 0 (by omega) h3]
+
+
+theorem showDigits_cons (d : Nat) (r : List Nat) : showDigits (d :: r) = (48 + d) :: showDigits r := rfl
+
+theorem toLower_digit (c : Nat) (h : isDigit c = true) : toLower c = c := by
+  simp [isDigit] at h; unfold toLower; split <;> omega
+
+/-- text starting with a digit is none of the special names -/
+theorem not_special (c : Nat) (r : List Nat) (h : isDigit c = true) :
+    let low := (c :: r).map toLower
+    ¬ low = sNan ∧ ¬ (low = sInf ∨ low = sInfinity) := by
+  simp only [List.map_cons, toLower_digit c h, sNan, sInf, sInfinity]
+  simp [isDigit] at h
+  refine ⟨?_, ?_⟩
+  · intro hh; injection hh with h1 _; omega
+  · rintro (hh | hh) <;> (injection hh with h1 _; omega)
+
+theorem splitSign_digit (c : Nat) (r : List Nat) (h : isDigit c = true) :
+    splitSign (c :: r) = (false, c :: r) := by
+  simp [isDigit] at h
+  unfold splitSign
+  split
+  · rename_i heq; injection heq with h1 _; omega
+  · rename_i heq; injection heq with h1 _; omega
+  · rfl
+
+theorem splitSign_sign (neg : Bool) (c : Nat) (r : List Nat) (h : isDigit c = true) :
+    splitSign ((if neg then [45] else []) ++ c :: r) = (neg, c :: r) := by
+  cases neg
+  · simpa using splitSign_digit c r h
+  · simp [splitSign]
+
+/-- fixed notation reads back as its digits scaled by the number of fraction digits -/
+theorem lexicalParse_fixed (neg : Bool) (ipd fpd : List Nat) (hne : ipd ≠ [])
+    (hi : ∀ d ∈ ipd, d < 10) (hf : ∀ d ∈ fpd, d < 10) :
+    lexicalParse ((if neg then [45] else []) ++ showDigits ipd ++ 46 :: showDigits fpd) =
+      some (ofDecimal neg (ipd ++ fpd) (-(fpd.length : Int))) := by
+  obtain ⟨d0, ir, rfl⟩ : ∃ d0 ir, ipd = d0 :: ir := by
+    cases ipd with
+    | nil => exact absurd rfl hne
+    | cons a b => exact ⟨a, b, rfl⟩
+  have hd0 : isDigit (48 + d0) = true := isDigit_show d0 (hi d0 (by simp))
+  unfold lexicalParse
+  rw [showDigits_cons, List.append_assoc, List.cons_append, splitSign_sign neg _ _ hd0]
+  obtain ⟨n1, n2⟩ := not_special (48 + d0) (showDigits ir ++ 46 :: showDigits fpd) hd0
+  simp only [n1, n2, if_false]
+  have hs1 := spanDigits_showDigits (d0 :: ir) hi (46 :: showDigits fpd) (by intro c hc; simp at hc; subst hc; decide)
+  rw [showDigits_cons, List.cons_append] at hs1
+  have hs2 := spanDigits_showDigits fpd hf [] (by simp)
+  simp only [List.append_nil] at hs2
+  simp only [hs1, hs2]
+  simp [parseExponent, showDigits, digitVals]
+  congr 1
+  · rw [← List.map_append]
+    have := digitVals_showDigits (ir ++ fpd)
+    simp only [digitVals, showDigits, List.map_map] at this
+    simpa using this
+
+
+/-- exponent notation reads back as its digits and exponent -/
+theorem lexicalParse_exp (neg : Bool) (d : Nat) (rest : List Nat) (e : Int) (hd : d < 10)
+    (hr : ∀ x ∈ rest, x < 10) :
+    lexicalParse ((if neg then [45] else []) ++
+        ((48 + d) :: (if rest.isEmpty then [] else 46 :: showDigits rest)) ++ [101] ++ expSuffix e) =
+      some (ofDecimal neg (d :: rest) (e - (rest.length : Int))) := by
+  have hd0 : isDigit (48 + d) = true := isDigit_show d hd
+  unfold lexicalParse
+  rw [List.append_assoc, List.append_assoc, List.cons_append, splitSign_sign neg _ _ hd0]
+  obtain ⟨n1, n2⟩ := not_special (48 + d) ((if rest.isEmpty then [] else 46 :: showDigits rest) ++ ([101] ++ expSuffix e)) hd0
+  simp only [n1, n2, if_false]
+  have hpe := parseExponent_expSuffix e
+  cases rest with
+  | nil =>
+    have hs1 := spanDigits_showDigits [d] (by intro x hx; simp at hx; subst hx; exact hd) (101 :: expSuffix e)
+      (by intro c hc; simp at hc; subst hc; decide)
+    simp only [showDigits, List.map_cons, List.map_nil, List.cons_append, List.nil_append] at hs1
+    simp only [List.isEmpty_nil, if_true, List.nil_append, List.cons_append, hs1, hpe]
+    simp [digitVals]
+  | cons r0 rs =>
+    have hs1 := spanDigits_showDigits [d] (by intro x hx; simp at hx; subst hx; exact hd)
+      (46 :: showDigits (r0 :: rs) ++ 101 :: expSuffix e) (by intro c hc; simp at hc; subst hc; decide)
+    simp only [showDigits, List.map_cons, List.map_nil, List.cons_append, List.nil_append] at hs1
+    have hs2 := spanDigits_showDigits (r0 :: rs) hr (101 :: expSuffix e) (by intro c hc; simp at hc; subst hc; decide)
+    simp only [showDigits, List.map_cons, List.cons_append] at hs2
+    simp only [List.isEmpty_cons, Bool.false_eq_true, if_false, List.cons_append, List.nil_append,
+      showDigits, List.map_cons, hs1, hs2, hpe]
+    have := digitVals_showDigits (r0 :: rs)
+    simp only [digitVals, showDigits, List.map_cons, List.map_map] at this
+    simp [digitVals]
+    simp at this
+    rw [this]
+
+
+/-! ### the three repr layouts read back -/
+
+theorem ofDigits_zeros (z : Nat) (ds : List Nat) : ofDigits (List.replicate z 0 ++ ds) = ofDigits ds := by
+  induction z with
+  | zero => simp
+  | succ n ih => rw [List.replicate_succ, List.cons_append, ofDigits_cons_zero, ih]
+
+theorem ofDecimal_congr (neg : Bool) (a b : List Nat) (e : Int) (h : ofDigits a = ofDigits b) :
+    ofDecimal neg a e = ofDecimal neg b e := by
+  unfold ofDecimal; rw [h]
+
+theorem plain_showDigits (ds : List Nat) (h : ∀ d ∈ ds, d < 10) : Plain (showDigits ds) := by
+  intro c hc
+  simp [showDigits] at hc
+  obtain ⟨d, hd, rfl⟩ := hc
+  have := h d hd
+  omega
+
+theorem plain_append {a b : List Nat} (ha : Plain a) (hb : Plain b) : Plain (a ++ b) := by
+  intro c hc
+  rcases List.mem_append.1 hc with h | h
+  · exact ha c h
+  · exact hb c h
+
+theorem plain_sign (b : Bool) : Plain (if b then [45] else []) := by
+  intro c hc; cases b <;> simp at hc; omega
+
+theorem plain_expSuffix (e : Int) : Plain (expSuffix e) := by
+  obtain ⟨sgn, xs, h1, h2, _, h4, _, _⟩ := expSuffix_shape e
+  rw [h1]
+  intro c hc
+  simp at hc
+  rcases hc with rfl | hc
+  · omega
+  · exact plain_showDigits xs h4 c hc
+
+theorem plain_cons {c : Nat} {t : List Nat}
+    (hc : c = 45 ∨ c = 43 ∨ c = 46 ∨ c = 101 ∨ (48 ≤ c ∧ c ≤ 57)) (ht : Plain t) : Plain (c :: t) := by
+  intro x hx
+  simp at hx
+  rcases hx with rfl | hx
+  · exact hc
+  · exact ht x hx
+
+
+theorem roundtrip_exp (bits : Nat) (h : DecFacts bits) :
+    parseStr ((shortestExpL bits).1 ++ [101] ++ expSuffix (shortestExpL bits).2) = some bits := by
+  obtain ⟨hne, hall⟩ := shortest_digits_ok bits false
+  have hsci := h.1
+  unfold ofSci at hsci
+  unfold shortestExpL
+  generalize shortest bits = sh at *
+  obtain ⟨ds, e10⟩ := sh
+  simp only at hne hall hsci ⊢
+  obtain ⟨d, rest, rfl⟩ : ∃ d rest, ds = d :: rest := by
+    cases ds with
+    | nil => exact absurd rfl hne
+    | cons a b => exact ⟨a, b, rfl⟩
+  have hd : d < 10 := hall d (by simp)
+  have hr : ∀ x ∈ rest, x < 10 := fun x hx => hall x (by simp [hx])
+  cases rest with
+  | nil =>
+    simp only []
+    have hplain : Plain ((if isNeg bits = true then [45] else []) ++
+        ((48 + d) :: (if ([] : List Nat).isEmpty then [] else 46 :: showDigits [])) ++ [101] ++ expSuffix e10) := by
+      apply plain_append
+      · apply plain_append
+        · exact plain_append (plain_sign _) (plain_cons (by omega) (by intro c hc; simp at hc))
+        · exact plain_cons (by omega) (by intro c hc; simp at hc)
+      · exact plain_expSuffix e10
+    have := lexicalParse_exp (isNeg bits) d [] e10 hd hr
+    rw [← parseStr_plain _ hplain] at this
+    simp only [List.isEmpty_nil, if_true] at this
+    rw [this]
+    refine congrArg some (Eq.trans ?_ hsci)
+    congr 1
+  | cons r0 rs =>
+    simp only []
+    have hplain : Plain ((if isNeg bits = true then [45] else []) ++
+        ((48 + d) :: (if (r0 :: rs).isEmpty then [] else 46 :: showDigits (r0 :: rs))) ++ [101] ++ expSuffix e10) := by
+      apply plain_append
+      · apply plain_append
+        · exact plain_append (plain_sign _) (plain_cons (by omega) (plain_cons (by omega) (plain_showDigits _ hr)))
+        · exact plain_cons (by omega) (by intro c hc; simp at hc)
+      · exact plain_expSuffix e10
+    have := lexicalParse_exp (isNeg bits) d (r0 :: rs) e10 hd hr
+    rw [← parseStr_plain _ hplain] at this
+    simp only [List.isEmpty_cons, Bool.false_eq_true, if_false] at this
+    rw [this]
+    refine congrArg some (Eq.trans ?_ hsci)
+    congr 1
+    simp only [List.length_cons]
+    omega
+
+theorem roundtrip_fixed1 (bits : Nat) (hf : isFinite bits = true)
+    (h : ofDecimal (isNeg bits) (fixedDigits bits 1) (-1) = bits) :
+    parseStr (toFixedL bits 1) = some bits := by
+  unfold toFixedL
+  simp only [finite_not_nan hf, finite_not_inf hf, Bool.false_eq_true, if_false]
+  unfold fixedDigits at h
+  generalize hds : List.replicate (1 + 1 - (natDigits (fixedInt bits 1)).length) 0 ++ natDigits (fixedInt bits 1) = ds at *
+  have hlen : 2 ≤ ds.length := by rw [← hds]; simp; omega
+  have hall : ∀ d ∈ ds, d < 10 := by
+    intro d hd; rw [← hds] at hd; simp at hd
+    rcases hd with ⟨_, rfl⟩ | hd
+    · omega
+    · exact natDigits_lt10 _ d hd
+  have hi : ∀ d ∈ ds.take (ds.length - 1), d < 10 := fun d hd => hall d (List.mem_of_mem_take hd)
+  have hfp : ∀ d ∈ ds.drop (ds.length - 1), d < 10 := fun d hd => hall d (List.mem_of_mem_drop hd)
+  have hne : ds.take (ds.length - 1) ≠ [] := by
+    intro hh; have := congrArg List.length hh
+    rw [List.length_take, List.length_nil] at this; omega
+  have e1 : ((1 : Nat) == 0) = false := rfl
+  simp only [e1, Bool.false_eq_true, if_false]
+  have hplain : Plain ((if isNeg bits = true then [45] else []) ++ showDigits (List.take (ds.length - 1) ds) ++
+      46 :: showDigits (List.drop (ds.length - 1) ds)) := by
+    apply plain_append (plain_append (plain_sign _) (plain_showDigits _ hi))
+    exact plain_cons (by omega) (plain_showDigits _ hfp)
+  rw [parseStr_plain _ hplain, lexicalParse_fixed _ _ _ hne hi hfp, List.take_append_drop]
+  have : ((List.drop (ds.length - 1) ds).length : Int) = 1 := by
+    rw [List.length_drop]; omega
+  rw [this, h]
+
+theorem roundtrip_shortestFixed (bits : Nat) (hf : isFinite bits = true) (h : DecFacts bits)
+    (hfd : FracDigits bits) : parseStr (shortestFixedL bits) = some bits := by
+  obtain ⟨hne, hall⟩ := shortest_digits_ok bits false
+  have hsci := h.1
+  unfold ofSci at hsci
+  unfold FracDigits at hfd
+  unfold shortestFixedL
+  simp only [finite_not_nan hf, finite_not_inf hf, Bool.false_eq_true, if_false]
+  generalize shortest bits = sh at *
+  obtain ⟨ds, e10⟩ := sh
+  simp only at hne hall hsci hfd ⊢
+  by_cases hp : e10 + 1 ≤ 0
+  · simp only [hp, if_true]
+    have hz : ∀ d ∈ List.replicate (-(e10 + 1)).toNat 0 ++ ds, d < 10 := by
+      intro d hd; simp at hd
+      rcases hd with ⟨_, rfl⟩ | hd
+      · omega
+      · exact hall d hd
+    have e48 : ([48, 46] : List Nat) ++ List.replicate (-(e10 + 1)).toNat 48 ++ showDigits ds =
+        showDigits [0] ++ 46 :: showDigits (List.replicate (-(e10 + 1)).toNat 0 ++ ds) := by
+      simp [showDigits]
+    rw [List.append_assoc, ← List.append_assoc [48, 46] _ (showDigits ds), e48]
+    have hplain : Plain ((if isNeg bits = true then [45] else []) ++
+        (showDigits [0] ++ 46 :: showDigits (List.replicate (-(e10 + 1)).toNat 0 ++ ds))) := by
+      apply plain_append (plain_sign _)
+      apply plain_append (plain_showDigits _ (by intro d hd; simp at hd; omega))
+      exact plain_cons (by omega) (plain_showDigits _ hz)
+    rw [parseStr_plain _ hplain, ← List.append_assoc,
+      lexicalParse_fixed _ [0] _ (by simp) (by intro d hd; simp at hd; omega) hz]
+    rw [ofDecimal_congr _ ([0] ++ (List.replicate (-(e10 + 1)).toNat 0 ++ ds)) ds _
+      (by rw [List.singleton_append, ofDigits_cons_zero, ofDigits_zeros])]
+    refine congrArg some (Eq.trans ?_ hsci)
+    congr 1
+    simp only [List.length_append, List.length_replicate]
+    omega
+  · have hlt : (e10 + 1).toNat < ds.length := by omega
+    simp only [hp, hlt, if_true, if_false]
+    have hi : ∀ d ∈ ds.take (e10 + 1).toNat, d < 10 := fun d hd => hall d (List.mem_of_mem_take hd)
+    have hfp : ∀ d ∈ ds.drop (e10 + 1).toNat, d < 10 := fun d hd => hall d (List.mem_of_mem_drop hd)
+    have hne' : ds.take (e10 + 1).toNat ≠ [] := by
+      intro hh; have := congrArg List.length hh
+      rw [List.length_take, List.length_nil] at this; omega
+    have hplain : Plain ((if isNeg bits = true then [45] else []) ++
+        (showDigits (List.take (e10 + 1).toNat ds) ++ [46] ++ showDigits (List.drop (e10 + 1).toNat ds))) := by
+      apply plain_append (plain_sign _)
+      apply plain_append (plain_append (plain_showDigits _ hi) (plain_cons (by omega) (by intro c hc; simp at hc)))
+      exact plain_showDigits _ hfp
+    rw [parseStr_plain _ hplain]
+    rw [show (if isNeg bits = true then [45] else []) ++
+        (showDigits (List.take (e10 + 1).toNat ds) ++ [46] ++ showDigits (List.drop (e10 + 1).toNat ds)) =
+        (if isNeg bits = true then [45] else []) ++ showDigits (List.take (e10 + 1).toNat ds) ++
+          46 :: showDigits (List.drop (e10 + 1).toNat ds) by simp]
+    rw [lexicalParse_fixed _ _ _ hne' hi hfp, List.take_append_drop]
+    refine congrArg some (Eq.trans ?_ hsci)
+    congr 1
+    rw [List.length_drop]
+    omega
+
+
+/-! ### trimming -/
+
+
+theorem dropWhile_congr {p q : Nat → Bool} (l : List Nat) (h : ∀ c ∈ l, p c = q c) :
+    l.dropWhile p = l.dropWhile q := by
+  induction l with
+  | nil => rfl
+  | cons a b ih =>
+    simp only [List.dropWhile_cons, h a (by simp)]
+    split
+    · exact ih (fun c hc => h c (by simp [hc]))
+    · rfl
+
+theorem trimWith_congr {p q : Nat → Bool} (l : List Nat) (h : ∀ c ∈ l, p c = q c) :
+    trimWith p l = trimWith q l := by
+  unfold trimWith
+  rw [dropWhile_congr l h]
+  rw [dropWhile_congr (List.dropWhile q l).reverse]
+  intro c hc
+  exact h c ((List.dropWhile_sublist q).subset (by simpa using hc))
+
+theorem mem_trimWith {p : Nat → Bool} {l : List Nat} {c : Nat} (h : c ∈ trimWith p l) : c ∈ l := by
+  unfold trimWith at h
+  rw [List.mem_reverse] at h
+  have h1 := (List.dropWhile_sublist p).subset h
+  rw [List.mem_reverse] at h1
+  exact (List.dropWhile_sublist p).subset h1
 
 end PV.C17
